@@ -17,7 +17,7 @@ KNOBS = ["attractor_candidates_limit", "retained_set_optimization_threshold", "m
 
 class C08(Machine):
     ID = "C08"
-    FAMILY_WEIGHTS = {"sparse": 3, "dense": 3, "canal": 1, "modular": 2, "maa": 3, "cascade": 1, "maa_cascade": 3, "degenerate": 1, "maa_deadpad": 1, "inputs_mix": 2}
+    FAMILY_WEIGHTS = {"sparse": 3, "dense": 3, "canal": 1, "modular": 2, "maa": 3, "cascade": 1, "maa_cascade": 3, "degenerate": 1, "maa_deadpad": 1, "inputs_mix": 2, "osc_latches": 2}
     NMAX = {"quick": 6, "thorough": 8}
 
     def gen_params(self, sc, rng):
